@@ -1013,6 +1013,41 @@ def extract_fn(unit: str, file: str, item: str, mode: str, contracts, canary: bo
     body_text_lo = body_open.end
     raw_body = sf.text[body_open.start:body_close.end]
 
+    # rule R30 (hoist): arguments of one call -- inline closures, an iterator expression -- are bound to locals in front of the
+    # statement, so that a proof can state a hypothesis about all of them at once.  Creating a closure / an iterator over the tree
+    # has no effect, so evaluating them before the receiver of the call changes nothing.
+    hoist_plan = []
+    if c and c.hoists:
+        cls_h = find_closures(toks, blo, bhi)
+        for hn, h in enumerate(c.hoists):
+          with _Txn():
+            (dp, _dpe) = _find_nth(raw_body, h.anchor, None, fn_label)[0]
+            dest = body_open.start + dp
+            plan = {'id': hn, 'items': [], 'proof': h.proof, 'vc': '%s:%d' % (c.vc_file, h.vc_line)}
+            for n_i, (kind_, what, name_) in enumerate(h.items):
+                if kind_ == 'closure':
+                    if what >= len(cls_h):
+                        raise LostAnchor('%s: @hoist closure %d not found' % (fn_label, what))
+                    cl_ = cls_h[what]
+                    lo_ = toks[cl_.bar_tok - 1].start if cl_.has_move else toks[cl_.bar_tok].start
+                    hi_ = toks[cl_.body_end_tok].end
+                else:
+                    (ep, epe) = _find_nth(raw_body, what, None, fn_label)[0]
+                    lo_, hi_ = body_open.start + ep, body_open.start + epe
+                if lo_ < dest:
+                    raise LostAnchor('%s: @hoist item in front of its destination' % fn_label)
+                tag = (hn, n_i)
+                edits.append((lo_, lo_, ('SEGS', [Seg('', {'kind': 'hoist-open', 'tag': tag})]), rw('R30')))
+                edits.append((hi_, hi_, ('SEGS', [Seg('', {'kind': 'hoist-close', 'tag': tag})]), rw('R30')))
+                plan['items'].append((tag, name_))
+            edits.append((dest, dest, ('SEGS', [Seg('', {'kind': 'hoist-dest', 'tag': hn})]), rw('R30')))
+            n_as = len(re.findall(r'\bassert\s*\(', h.proof)) + len(re.findall(r'\bassert\s+forall\b', h.proof))
+            if n_as:
+                info.n_asserts += n_as
+                info.proof_blocks.append((plan['vc'], n_as))
+            hoist_plan.append(plan)
+            info.rewrites.append('R30:hoist %s' % ', '.join(nm for (_, nm) in plan['items']))
+
     # inserts (A3) and replaces
     if c:
         for ins in c.inserts:
@@ -1096,6 +1131,18 @@ def extract_fn(unit: str, file: str, item: str, mode: str, contracts, canary: bo
     if pos < it.end:
         out.append(Seg(sf.text[pos:it.end], repo_origin(pos)))
     out.append(Seg('\n', {'kind': 'glue'}))
+    for plan in hoist_plan:
+        lets: List[Seg] = []
+        for (tag, name_) in plan['items']:
+            i0 = next(i for i, sg in enumerate(out) if isinstance(sg.origin, dict) and sg.origin.get('kind') == 'hoist-open' and sg.origin.get('tag') == tag)
+            i1 = next(i for i, sg in enumerate(out) if isinstance(sg.origin, dict) and sg.origin.get('kind') == 'hoist-close' and sg.origin.get('tag') == tag)
+            moved = out[i0 + 1:i1]
+            out[i0:i1 + 1] = [Seg(name_, rw('R30'))]
+            lets += [Seg('let %s = ' % name_, rw('R30'))] + moved + [Seg(';\n', rw('R30'))]
+        if plan['proof']:
+            lets.append(Seg('proof { %s }\n' % plan['proof'], {'kind': 'insert', 'fn': fn_label, 'vc': plan['vc'], 'tags': c.serves, 'rule': 'R30'}))
+        d0 = next(i for i, sg in enumerate(out) if isinstance(sg.origin, dict) and sg.origin.get('kind') == 'hoist-dest' and sg.origin.get('tag') == plan['id'])
+        out[d0:d0 + 1] = lets
     return out, info
 
 
